@@ -108,7 +108,12 @@ def run(tier):
             break
         d = run_json([exe] + ["%s=%s" % kv for kv in cfg.items()] + ["deadline=%d" % min(left, 300 if tier == "quick" else 1200)], left + 60)
         label = ",".join("%s=%s" % kv for kv in cfg.items())
-        if d.get("timeout") or d.get("crash"):
+        if d.get("timeout"):
+            # the explorer did not report within its own deadline + 60 s (machine overloaded): nothing is known about this configuration
+            exhaustive = False
+            per.append({"cfg": label, "not_completed": "explorer exceeded its deadline"})
+            continue
+        if d.get("crash"):
             ck.violation("C24:sched-harness-failed@" + label, str(d)[:300], {"mode": "sched", "cfg": cfg})
             continue
         states += d["states"]
